@@ -103,6 +103,7 @@ type run struct {
 	Workers     int // worker processes (default 16)
 	DeadlineSec int
 	MaxExecs    int
+	Only        string // run only the scenario case whose name contains this (a fresh set of worker processes per case)
 }
 
 type known struct {
@@ -230,7 +231,7 @@ func execRun(b *build, r run, tier string, scratch string, idx int) runOutcome {
 			if f == 0 {
 				f = 1
 			}
-			sp := spec{Scenario: r.Scenario, Params: r.Params, Tier: tier, K: r.K, E: r.E, F: f, Horizon: r.Horizon, Shard: w, NShards: workers, DeadlineSec: r.DeadlineSec, MaxExecs: r.MaxExecs, Seed: seed(), Race: r.Race, Only: os.Getenv("VF_ONLY")}
+			sp := spec{Scenario: r.Scenario, Params: r.Params, Tier: tier, K: r.K, E: r.E, F: f, Horizon: r.Horizon, Shard: w, NShards: workers, DeadlineSec: r.DeadlineSec, MaxExecs: r.MaxExecs, Seed: seed(), Race: r.Race, Only: firstNonEmpty(r.Only, os.Getenv("VF_ONLY"))}
 			results[w], errs[w] = runWorker(b, r.Pkg, sp, wdir)
 		}()
 	}
@@ -764,4 +765,11 @@ func runReplay(path string) int {
 	}
 	fmt.Println("not reproduced: the recorded schedule/case no longer violates", rf.Violation.Key)
 	return 0
+}
+
+func firstNonEmpty(a, b string) string {
+	if a != "" {
+		return a
+	}
+	return b
 }
